@@ -390,6 +390,75 @@ theorem factor_entries (h : n ≤ m) (A : Mat ℝ m n) (i : Fin m) (j : Fin n) :
 
 end Factor
 
+/-! ## partial pivoting: the stored multipliers have magnitude at most one -/
+section Mult
+variable {m n : Nat}
+
+def MultInv (k : Nat) (s : State ℝ m n) : Prop :=
+  ∀ (i : Fin m) (l : Fin n), l.val < k → l.val < i.val → |s.lu.get i l| ≤ 1
+
+theorem multInv_exchange (k : Nat) (s : State ℝ m n) (p kr : Fin m)
+    (hp : k ≤ p.val) (hkr : k ≤ kr.val) (hs : MultInv k s) : MultInv k (exchange s p kr) := by
+  unfold exchange
+  by_cases hpk : p = kr
+  · simp [hpk]; exact hs
+  · simp only [ne_eq, hpk, not_false_eq_true, if_true]
+    intro i l hl hli
+    simp only [swapRows, Mat.get_ofFn]
+    by_cases h1 : i = kr
+    · rw [if_pos h1]; exact hs p l hl (by omega)
+    · rw [if_neg h1]
+      by_cases h2 : i = p
+      · rw [if_pos h2]; exact hs kr l hl (by omega)
+      · rw [if_neg h2]; exact hs i l hl hli
+
+theorem multInv_eliminate (h : n ≤ m) (k : Fin n) (s : State ℝ m n) (hs : MultInv k.val s)
+    (hmax : ∀ i : Fin m, k.val ≤ i.val → |s.lu.get i k| ≤ |s.lu.get (k.castLE h) k|) :
+    MultInv (k.val + 1) { s with lu := eliminate s.lu k (k.castLE h) } := by
+  intro i l hl hli
+  show |(eliminate s.lu k (k.castLE h)).get i l| ≤ 1
+  unfold eliminate
+  simp only [ScalarReal.eqb_iff, ScalarReal.zero_eq]
+  by_cases hpz : s.lu.get (k.castLE h) k = 0
+  · simp only [hpz, if_true]
+    by_cases hlk : l.val < k.val
+    · exact hs i l hlk hli
+    · have : l = k := Fin.ext (by omega)
+      subst this
+      have := hmax i (by omega)
+      rw [hpz, abs_zero] at this
+      exact le_trans this zero_le_one
+  · simp only [hpz, if_false, Mat.get_ofFn, Fin.val_castLE]
+    by_cases hik : k.val < i.val
+    · simp only [hik, if_true]
+      by_cases hlk : l.val < k.val
+      · have h1 : l ≠ k := by intro e; rw [e] at hlk; exact lt_irrefl _ hlk
+        rw [if_neg h1, if_neg (by omega)]
+        exact hs i l hlk hli
+      · have : l = k := Fin.ext (by omega)
+        subst this
+        rw [if_pos rfl, abs_div]
+        exact div_le_one_of_le₀ (hmax i (by omega)) (abs_nonneg _)
+    · simp only [hik, if_false]
+      exact hs i l (by omega) hli
+
+theorem multInv_step (h : n ≤ m) (k : Fin n) (s : State ℝ m n) (hs : MultInv k.val s) :
+    MultInv (k.val + 1) (step h s k) := by
+  unfold step
+  simp only
+  have hp := (findPivot_spec s.lu k (k.castLE h)).1
+  apply multInv_eliminate h k _
+    (multInv_exchange k.val s (findPivot s.lu k (k.castLE h)) (k.castLE h) (by simpa using hp) (by simp) hs)
+  intro i hi
+  exact exchange_pivot_max s k (k.castLE h) i (by simpa using hi)
+
+theorem multInv_factor (h : n ≤ m) (A : Mat ℝ m n) : MultInv n (factor h A) := by
+  unfold factor
+  exact foldl_inv (fun k s => MultInv k s) n (step h) (init A)
+    (by intro i l hl; omega) (fun k t hk => multInv_step h k t hk)
+
+end Mult
+
 /-! ## the pivot vector is a permutation and `pivsign` is its sign -/
 section Perm
 variable {m n : Nat}
